@@ -78,7 +78,7 @@ impl Geometry {
     #[must_use]
     pub fn center(&self) -> Point3 {
         Point3::from(
-            self.devices().map(|d| d.center().coords).sum::<Vector3>() / self.devices.len() as f32,
+            self.devices().map(|d| d.center().coords).sum::<Vector3>() / self.num_devices() as f32,
         )
     }
 
